@@ -20,7 +20,7 @@ def gen(rnd: random.Random, nsteps: int) -> dict:
     for _ in range(nsteps):
         x = rnd.random()
         if x < 0.3:
-            ops.append({'op': 'add', 'h': rnd.randrange(k), 'i': rnd.randrange(12)})
+            ops.append({'op': 'add', 'h': rnd.randrange(k), 'i': rnd.randrange(13)})
         elif x < 0.42:
             ops.append({'op': 'pack', 'clean_per_pack': rnd.random() < 0.5, 'compress': rnd.random() < 0.5})
         elif x < 0.5:
@@ -40,7 +40,7 @@ def run_case(case) -> tuple[str, int, dict] | None:
         c0 = Container(d)
         c0.init_container(clear=True, **case['cfg'])
         hs = [c0] + [Container(d) for _ in range(case['handles'] - 1)]
-        pool = [b'obj-%d-' % i * (i + 1) for i in range(12)]
+        pool = [b'obj-%d-' % i * (i + 1) for i in range(12)] + [b'']   # index 12: the zero-length object (packing it adds no byte to any pack)
         model = {}
         for step, op in enumerate(case['ops']):
             if op['op'] == 'add':
@@ -125,6 +125,14 @@ def fixed_cases():
                 ops = [{'op': 'add', 'h': 1, 'i': 0}, {'op': 'query', 'h': 2, 'q': q1}, {'op': 'add', 'h': 2, 'i': 1},
                        {'op': 'pack', 'clean_per_pack': cpp, 'compress': False}, {'op': 'clean'}, {'op': 'query', 'h': 2, 'q': q2},
                        {'op': 'add', 'h': 0, 'i': 2}, {'op': 'query', 'h': 1, 'q': q2}]
+                out.append({'handles': 3, 'cfg': {'hash_type': 'sha256', 'loose_prefix_len': 2, 'pack_size_target': 4 * 1024 ** 3}, 'ops': ops})
+    # the same order with the zero-length object as the only thing packed in between (no pack file grows)
+    for q1 in ['has', 'count', 'meta']:
+        for q2 in ['has', 'get', 'bulk', 'meta']:
+            for comp in (False, True):
+                ops = [{'op': 'add', 'h': 1, 'i': 0}, {'op': 'pack', 'clean_per_pack': False, 'compress': comp}, {'op': 'clean'},
+                       {'op': 'query', 'h': 2, 'q': q1}, {'op': 'add', 'h': 1, 'i': 12},
+                       {'op': 'pack', 'clean_per_pack': False, 'compress': comp}, {'op': 'clean'}, {'op': 'query', 'h': 2, 'q': q2}]
                 out.append({'handles': 3, 'cfg': {'hash_type': 'sha256', 'loose_prefix_len': 2, 'pack_size_target': 4 * 1024 ** 3}, 'ops': ops})
     return out
 
